@@ -508,11 +508,21 @@ func (a *VecAgg) Eval(env *MEnv, T int64) Vec {
 
 // ---- literals, vector(), binary operations
 
-type Lit struct{ V float64 }
+// Lit is a number literal; Pad zeros are written before a non-negative whole number (numbers are
+// decimal, however many zeros precede them).
+type Lit struct {
+	V   float64
+	Pad int
+}
 
 func fnum(v float64) string { return strconv.FormatFloat(v, 'f', -1, 64) }
 
-func (l *Lit) Text() string               { return fnum(l.V) }
+func (l *Lit) Text() string {
+	if l.Pad > 0 && l.V >= 0 && l.V == math.Trunc(l.V) && l.V < 1e15 {
+		return strings.Repeat("0", l.Pad) + fnum(l.V)
+	}
+	return fnum(l.V)
+}
 func (l *Lit) Shape() string              { return "lit" }
 func (l *Lit) Eval(*MEnv, int64) Vec      { panic("literal has no vector value") }
 
